@@ -333,9 +333,19 @@ func (g *G) errNew() *N {
 	return &N{K: KErrNew, Str: kind, Msg: fmt.Sprintf("r%d", g.t.Intn(1000))}
 }
 
+// ImportsAvailable is set by a harness that has put cfbad.pangaea / cfgood.pangaea into the
+// working directory of the process.
+var ImportsAvailable bool
+
 // natural draws an expression on which the interpreter itself fails (not a simulated callee):
 // an unbound name, a missing property, an integer division by zero.
 func (g *G) natural() *N {
+	if ImportsAvailable && g.t.Chance(1, 6) {
+		// a relative import of a source file that fails while it is loaded (the harness puts
+		// cfbad.pangaea into the working directory): the module's error is the import's error
+		call := []string{"import(\"./cfbad\")", "invite!(\"./cfbad\")", "import(\"./cfgood\").cfVal // 0"}[g.t.Intn(3)]
+		return &N{K: KNat, Names: []string{call}, Str: "ZeroDivisionErr", Msg: "cannot be divided by 0"}
+	}
 	switch g.t.Intn(5) {
 	case 4:
 		// the placeholder `_`: a name that is bound - to an error that is raised whenever it is evaluated
